@@ -3,8 +3,8 @@ package checks
 import (
 	"encoding/json"
 	"fmt"
-	"os/exec"
 	"os"
+	"os/exec"
 	"sort"
 	"strings"
 
@@ -255,7 +255,10 @@ func init() {
 			r.Nontrivial += int64(len(base))
 		}
 		// single-edit pairs: exactly one component changed => different hash
-		type edit struct{ name, job string; t c15T }
+		type edit struct {
+			name, job string
+			t         c15T
+		}
 		baseJob := c15JobText("", "", c15Params, "")
 		baseT := c15T{"h:1", map[string]string{"k": "v", "m": "n"}}
 		edits := []edit{
